@@ -462,6 +462,8 @@ INJECTOR_NAMES_2 = {
 
 # ---- round 10 (hunt on the unchanged tree): reproducers of the repaired defects and of the recorded findings
 ROUND10 = {
+    'INACCESSIBLE_PARAM_LIB': 'package lib\n\ntype config struct{ N int }\ntype Server struct{ C config }\n\nfunc NewConfig() config          { return config{N: 1} }\nfunc NewServer(c config) *Server { return &Server{c} }\n',
+    'INACCESSIBLE_PARAM': 'package main\n\nimport (\n\t"github.com/mazrean/kessoku"\n\t"vscratch/inaccessible_param/lib"\n)\n\nvar _ = kessoku.Inject[*lib.Server]("InitServer", kessoku.Provide(lib.NewServer))\n\nfunc main() {}\n',
     'LOCAL_REF_SHADOW': 'package main\n\nimport "github.com/mazrean/kessoku"\n\ntype Config struct{ Port int }\ntype Server struct{ Cfg Config }\n\nfunc NewServer(c Config) *Server { return &Server{c} }\n\nvar port = 1 // default\n\nfunc setup() {\n\tport := 8080\n\t_ = kessoku.Inject[*Server]("InitServer",\n\t\tkessoku.Value(Config{Port: port}),\n\t\tkessoku.Provide(NewServer),\n\t)\n}\n\nfunc main() {\n\tsetup()\n\tif InitServer().Cfg.Port != 8080 {\n\t\tpanic("wrong result")\n\t}\n}\n',
     'LOCAL_REF_ASYNC': 'package main\n\nimport (\n\t"context"\n\n\t"github.com/mazrean/kessoku"\n)\n\ntype DB struct{ dsn string }\ntype Cache struct{ addr string }\ntype App struct {\n\tdb    *DB\n\tcache *Cache\n}\n\nfunc NewCache() *Cache             { return &Cache{"c"} }\nfunc NewApp(db *DB, c *Cache) *App { return &App{db, c} }\n\nfunc setup(dsn string) {\n\tdb := &DB{dsn}\n\t_ = kessoku.Inject[*App]("InitApp",\n\t\tkessoku.Async(kessoku.Value(db)),\n\t\tkessoku.Async(kessoku.Provide(NewCache)),\n\t\tkessoku.Provide(NewApp),\n\t)\n}\n\nfunc main() {\n\tsetup("dsn")\n\tapp := InitApp(context.Background())\n\tif app.db == nil || app.db.dsn != "dsn" {\n\t\tpanic("wrong result")\n\t}\n}\n',
     'NAME_TAKEN_IMPORT_LIB': 'package server\n\ntype Server struct{ Addr string }\n\nfunc New() *Server { return &Server{Addr: ":80"} }\n',
@@ -558,7 +560,7 @@ INJECTOR_NAMES = {
 # has to write the type, which the user's package cannot name (known finding KF-C04-24; without Async `:=` needs no type)
 UNEXPORTED_TYPE = {
     "lib/l.go": 'package lib\n\ntype client struct{ S string }\n\nfunc NewClient() *client { return &client{S: "c"} }\n\ntype Other struct{ S string }\n\nfunc NewOther() *Other { return &Other{S: "o"} }\n\ntype App struct{ S string }\n\nfunc NewApp(c *client, o *Other) *App { return &App{S: c.S + o.S} }\n',
-    "k.go": 'package main\n\nimport (\n\t"context"\n\n\t"github.com/mazrean/kessoku"\n\t"vscratch/known_KF_C04_24/lib"\n)\n\nvar _ = kessoku.Inject[*lib.App]("InitApp", kessoku.Async(kessoku.Provide(lib.NewClient)), kessoku.Async(kessoku.Provide(lib.NewOther)), kessoku.Provide(lib.NewApp))\n\nfunc main() { _ = InitApp(context.Background()) }\n',
+    "k.go": 'package main\n\nimport (\n\t"context"\n\n\t"github.com/mazrean/kessoku"\n\t"vscratch/inaccessible_unexported/lib"\n)\n\nvar _ = kessoku.Inject[*lib.App]("InitApp", kessoku.Async(kessoku.Provide(lib.NewClient)), kessoku.Async(kessoku.Provide(lib.NewOther)), kessoku.Provide(lib.NewApp))\n\nfunc main() { _ = InitApp(context.Background()) }\n',
 }
 
 
@@ -700,11 +702,12 @@ def _stage(seed, tier, key="N-x"):
                       more_steps=[dict(targets=["app_pro.go"], goflags="-mod=mod -tags=pro")])))
     pkgs.append(("handwritten_band", {"k.go": R["HANDWRITTEN_BAND_K"], "k_band.go": R["HANDWRITTEN_BAND_B"]}, ["k.go"], None, dict(kind="a hand-written file at the output's path", run=True)))
     pkgs.append(("known_KF_C02_1", {"k.go": R["CTX_KEPT"]}, ["k.go"], "KF-C02-1", dict(kind="known finding reproducer (a provider keeps the context it is given)", signature="no vet signature: the file compiles", run=True, run_signature="cancelled when the injector returns")))
-    pkgs.append(("known_KF_C04_26", {"k.go": R["INTERNAL_K"], "lib/l.go": R["INTERNAL_LIB"], "lib/internal/impl/i.go": R["INTERNAL_IMPL"]}, ["k.go"], "KF-C04-26", dict(kind="known finding reproducer (a value of an internal package's type in the var block)", signature=r"use of internal package .* not allowed")))
+    pkgs.append(("inaccessible_internal", {"k.go": R["INTERNAL_K"].replace("known_KF_C04_26", "inaccessible_internal"), "lib/l.go": R["INTERNAL_LIB"].replace("known_KF_C04_26", "inaccessible_internal"), "lib/internal/impl/i.go": R["INTERNAL_IMPL"]}, ["k.go"], None, dict(kind="a value of an internal package's type in an injector with goroutines (repaired: refused)", expect_refused="is not accessible from")))
+    pkgs.append(("inaccessible_param", {"k.go": R["INACCESSIBLE_PARAM"], "lib/l.go": R["INACCESSIBLE_PARAM_LIB"]}, ["k.go"], None, dict(kind="an unsupplied dependency of an unexported type of another package (repaired: refused, it cannot be a parameter)", expect_refused="is not accessible from")))
     pkgs.append(("known_KF_C04_27", {"app_linux.go": R["GOOS_LINUX"], "app_windows.go": R["GOOS_WINDOWS"], "main.go": R["GOOS_MAIN"]}, ["app_linux.go"], "KF-C04-27", dict(kind="known finding reproducer (a source constrained by its file name)", signature=r"undefined: NewLinux", vet_env={"GOOS": "windows"})))
     pkgs.append(("xset", XSET, ["k.go"], None, dict(kind="a Set variable of another package (repaired: refused instead of left out)", expect_refused="cannot read the members of the Set")))
     pkgs.append(("set_multi_value_refused", {"k.go": R["SET_MULTI_VALUE"]}, ["k.go"], None, dict(kind="Set variables initialised from one multi-value call", expect_refused="cannot read the members of the Set")))
-    pkgs.append(("known_KF_C04_24", UNEXPORTED_TYPE, ["k.go"], "KF-C04-24", dict(kind="known finding reproducer", signature=r"(not exported by package lib|cannot refer to unexported|unexported)")))
+    pkgs.append(("inaccessible_unexported", UNEXPORTED_TYPE, ["k.go"], None, dict(kind="a value of an unexported type of another package in an injector with goroutines (repaired: refused)", expect_refused="is not accessible from")))
     pkgs.append(("known_KF_C04_3", CH_PACKAGE, ["k.go"], "KF-C04-3", dict(kind="known finding reproducer", signature=r"ch\.Client is not a type")))
     for kid, (body, sig) in KNOWN.items():
         pkgs.append(("known_" + kid.replace("-", "_"), {"k.go": wrap(body)}, ["k.go"], kid, dict(kind="known finding reproducer", signature=sig)))
